@@ -43,7 +43,7 @@ def RNode(tag, attrs=(), children=None, data=None):
 class Choices(object):
     """the encoder's free choices; each is consulted where the format allows an alternative"""
 
-    def __init__(self, list16=False, len_form=None, literal=False, packed=True, jid=True, string_content=False, deflate=False):
+    def __init__(self, list16=False, len_form=None, literal=False, packed=True, jid=True, string_content=False, deflate=False, bare_jid=False):
         self.list16 = list16                  # 16-bit list header even when the size fits 8 bits
         self.len_form = len_form              # None = shortest; 20 or 31 = force that width if the length fits
         self.literal = literal                # literal bytes instead of a dictionary token
@@ -51,6 +51,7 @@ class Choices(object):
         self.jid = jid                        # JID pair form for user@server
         self.string_content = string_content  # node content as a string (token/packed/JID) instead of binary
         self.deflate = deflate
+        self.bare_jid = bare_jid              # a string without '@' (a server name) as a JID pair without user part: 0xFA 0x00 string
 
 
 SHORTEST = Choices()
@@ -143,6 +144,11 @@ class Encoder(object):
                 self.u8(j % 256)
                 return
         codes = _codes(s)
+        if allow_jid and self.ch.bare_jid and _find_code(codes, 64) is None:
+            self.u8(JID_PAIR)
+            self.u8(0)
+            self.string(s, allow_jid=False)
+            return
         if allow_jid and self.ch.jid:
             at = _find_code(codes, 64)
             if at is not None and at >= 1 and at < len(codes) - 1:
